@@ -1,12 +1,14 @@
 INIT Init
-CHECK_DEADLOCK FALSE
 NEXT Next
+CHECK_DEADLOCK FALSE
 CONSTANTS MaxRows = 2
           MaxLen = 2
+          KeyRows <- KeyRows3
           RK1 <- RK1Min
+          RK1T <- RK1Min
           RK2 <- RK2Std
           CK1 <- CK1Min
           CK2 <- CK2Min
-          DefOnMany = {"-"}
+          DefOnMany = {}
 INVARIANT SpecSane
 INVARIANT RejectSane
